@@ -232,6 +232,97 @@ fn probes(rep: &mut Report) {
     }
 }
 
+/// `x [NOT] IN (SELECT a FROM ta [WHERE …] <set operator> SELECT b FROM tb [WHERE …])`: the subquery
+/// body is a set operation (outside the model's single-table subqueries), so the expected rows are
+/// computed here from the definitions: set operators compare NULLs as equal; IN is TRUE on a match,
+/// UNKNOWN when there is no match and the operand or a member is NULL, FALSE otherwise; NOT IN
+/// negates; WHERE keeps the TRUE rows.  Positions: whole WHERE, AND operand, OR operand.
+fn in_setop_family(r: &mut Rng, dbd: &DbDef, rep: &mut Report) {
+    let int_cols = |t: &TableDef| t.schema.cols_of(Ty::Int);
+    let ts: Vec<usize> = (0..dbd.tables.len()).filter(|t| !int_cols(&dbd.tables[*t]).is_empty()).collect();
+    if ts.len() < 3 {
+        return;
+    }
+    let (to, ta, tb) = (ts[0], ts[1], ts[2]);
+    let val = |l: &Lit| match l { Lit::I(i) => Some(*i), _ => None };
+    let col = |t: usize, r: &mut Rng| *r.pick(&int_cols(&dbd.tables[t]));
+    let (xo, ca, cb) = (col(to, r), col(ta, r), col(tb, r));
+    // optional simple filters inside the operands
+    let side = |t: usize, c: usize, r: &mut Rng| -> (String, Vec<Option<i64>>) {
+        let td = &dbd.tables[t];
+        let (name, cname) = (&td.schema.table, &td.schema.cols[c].0);
+        if r.chance(1, 2) {
+            let fc = *r.pick(&int_cols(td));
+            let k = r.range(-2, 3);
+            let vals = td.rows.iter().filter(|row| val(&row[fc]).map(|v| v >= k).unwrap_or(false)).map(|row| val(&row[c])).collect();
+            (format!("SELECT {n}.{c} FROM {n} WHERE {n}.{f} >= {k}", n = name, c = cname, f = td.schema.cols[fc].0, k = Lit::I(k).sql()), vals)
+        } else {
+            (format!("SELECT {n}.{c} FROM {n}", n = name, c = cname), td.rows.iter().map(|row| val(&row[c])).collect())
+        }
+    };
+    let (sql_a, va) = side(ta, ca, r);
+    let (sql_b, vb) = side(tb, cb, r);
+    let dedup = |v: &Vec<Option<i64>>| { let mut o: Vec<Option<i64>> = vec![]; for x in v { if !o.contains(x) { o.push(*x); } } o };
+    for (op, members) in [
+        ("UNION", dedup(&va.iter().chain(vb.iter()).cloned().collect())),
+        ("UNION ALL", va.iter().chain(vb.iter()).cloned().collect::<Vec<_>>()),
+        ("INTERSECT", dedup(&va).into_iter().filter(|x| vb.contains(x)).collect()),
+        ("EXCEPT", dedup(&va).into_iter().filter(|x| !vb.contains(x)).collect()),
+    ] {
+        let tod = &dbd.tables[to];
+        let x = format!("{}.{}", tod.schema.table, tod.schema.cols[xo].0);
+        // three-valued IN: Some(true) / Some(false) / None = UNKNOWN
+        let in3 = |v: Option<i64>| -> Option<bool> {
+            if members.is_empty() { return Some(false); }
+            match v {
+                None => None,
+                Some(v) => if members.contains(&Some(v)) { Some(true) } else if members.contains(&None) { None } else { Some(false) },
+            }
+        };
+        let k = r.range(-2, 3);
+        let fo = *r.pick(&int_cols(tod));
+        let f = |row: &Vec<Lit>| val(&row[fo]).map(|v| v <= k);     // Some(bool) or UNKNOWN
+        let fsql = format!("{}.{} <= {}", tod.schema.table, tod.schema.cols[fo].0, Lit::I(k).sql());
+        let sub = format!("({} {} {})", sql_a, op, sql_b);
+        let and3 = |a: Option<bool>, b: Option<bool>| match (a, b) { (Some(false), _) | (_, Some(false)) => Some(false), (Some(true), Some(true)) => Some(true), _ => None };
+        let or3 = |a: Option<bool>, b: Option<bool>| match (a, b) { (Some(true), _) | (_, Some(true)) => Some(true), (Some(false), Some(false)) => Some(false), _ => None };
+        let forms: Vec<(&str, String, Box<dyn Fn(&Vec<Lit>) -> Option<bool>>)> = vec![
+            ("in_whole_where", format!("{} IN {}", x, sub), Box::new(|row: &Vec<Lit>| in3(val(&row[xo])))),
+            ("not_in_whole_where", format!("{} NOT IN {}", x, sub), Box::new(|row: &Vec<Lit>| in3(val(&row[xo])).map(|b| !b))),
+            ("in_and_filter", format!("{} AND {} IN {}", fsql, x, sub), Box::new(|row: &Vec<Lit>| and3(f(row), in3(val(&row[xo]))))),
+            ("not_in_and_filter", format!("{} NOT IN {} AND {}", x, sub, fsql), Box::new(|row: &Vec<Lit>| and3(in3(val(&row[xo])).map(|b| !b), f(row)))),
+            ("in_or_filter", format!("{} IN {} OR {}", x, sub, fsql), Box::new(|row: &Vec<Lit>| or3(in3(val(&row[xo])), f(row)))),
+        ];
+        let mut db = Db::new();
+        dbd.load(&mut db);
+        for (name, wh, truth) in forms.iter() {
+            let sql = format!("SELECT {}.* FROM {} WHERE {}", tod.schema.table, tod.schema.table, wh);
+            let want: Vec<Vec<Lit>> = tod.rows.iter().filter(|row| truth(row) == Some(true)).cloned().collect();
+            let mut want_s: Vec<String> = want.iter().map(|row| format!("({})", row.iter().map(|l| match l { Lit::Null => "N".to_string(), Lit::I(i) => format!("I{}", i), Lit::S(t) => format!("S{}", vharness::sx::hex_str(t)) }).collect::<Vec<_>>().join(" "))).collect();
+            want_s.sort();
+            let o = db.query(&sql);
+            rep.count(&format!("in_setop_{}_{}", op.to_lowercase().replace(' ', "_"), name));
+            rep.case(&format!("in-setop {} {} {}", dbd.sx(), sql, name), !want.is_empty());
+            match o.rows() {
+                Some(rows) => {
+                    if canon::bag_vec(rows) != want_s {
+                        rep.fail(FailKind::Oracle, None, "IN / NOT IN over a set-operation subquery: rows differ from the definition (three-valued IN over the set operation's result)",
+                            &format!("{}{};\n  => {}\n-- expected {:?}\n-- members of the set operation: {:?}", dbd.script(), sql, o.brief(), want_s, members));
+                        return;
+                    }
+                }
+                None => {
+                    if o.is_panic() {
+                        rep.fail(FailKind::Oracle, None, "engine panicked on IN over a set-operation subquery", &format!("{}{};\n  => {}", dbd.script(), sql, o.brief()));
+                        return;
+                    }
+                    rep.count("in_setop_rejected");
+                }
+            }
+        }
+    }
+}
+
 fn main() {
     engine::silence_panics();
     let args = Args::parse("C01");
@@ -283,6 +374,9 @@ fn main() {
             rep.sample(serde_json::json!({"sql": q.sql(&db_def), "tables": db_def.tables.iter().map(|t| t.rows.len()).collect::<Vec<_>>()}));
         }
         run_case(&db_def, &q, force_unq, &mut model, &mut rep);
+        if i % 10 == 5 && large.is_none() {
+            in_setop_family(&mut r, &db_def, &mut rep);
+        }
     }
     std::process::exit(rep.finish());
 }
